@@ -625,6 +625,138 @@ example : Pre_update ⟨[2, 3, 4], 2, [-1, 0, 2], 14⟩ ∧ ¬ Pre_update ⟨[2,
     ¬ Pre_update ⟨[2, 3, 4], 2, [-2], 6⟩ := by decide
 example : Pre_mttkrps [2, 3, 4] [(2, 2), (3, 2), (4, 2)] ∧ ¬ Pre_mttkrps [2, 3, 4] [(2, 2), (3, 2), (2, 2)] := by decide
 
+/-! ### input classes added after the mutation study (one-token changes of the code that no check reported) -/
+
+/-- `sptensor.from_aggregator(subs, vals, shape)` with the extents as the caller wrote them: an
+extent that is zero or negative is rejected whether or not there are entries (also when the list
+of subscripts is empty), and so is everything `Pre_subs` excludes — in particular a subscript
+equal to its extent, whatever value (zero, or duplicates that cancel) is stored there: the model
+never looks at a value. -/
+theorem C19_rejects_from_aggregator_extents (a : SubsArgsI) (hw : ∀ row ∈ a.subs, row.length = a.width)
+    (h : ¬ Pre_subsI a) : validate_fromAggregatorI a = .error .reject :=
+  rejects_of_guard (validate_fromAggregatorI_ok_iff a hw) h
+
+theorem C19_accepts_from_aggregator_extents (a : SubsArgsI) (hw : ∀ row ∈ a.subs, row.length = a.width)
+    (h : Pre_subsI a) : validate_fromAggregatorI a = .ok () := (validate_fromAggregatorI_ok_iff a hw).2 h
+
+/-- the plain `sptensor(subs, vals, shape)` constructor never tests the sign of an extent; as
+long as there is at least one entry its range test rejects a non-positive extent all the same. -/
+theorem C19_rejects_sptensor_extents (a : SubsArgsI) (hne : a.subs ≠ []) (h : ¬ Pre_subsI a) :
+    validate_sptensorI a = .error .reject :=
+  rejects_of_guard (validate_sptensorI_ok_iff a hne) h
+
+theorem C19_accepts_sptensor_extents (a : SubsArgsI) (h : Pre_subsI a) : validate_sptensorI a = .ok () :=
+  (validate_sptensor_ok_iff a.toNat).2 h.2
+
+/-- ... and without entries it answers: `sptensor(empty, empty, (2, -3))` is a tensor with a
+negative extent (reported; the harness lists it as the known finding
+`F19-sptensor-empty-nonpositive-extent`). -/
+theorem C19_sptensor_empty_nonpositive_extent_counterexample :
+    validate_sptensorI ⟨[2, -3], 2, [], 0⟩ = .ok () ∧ ¬ Pre_subsI ⟨[2, -3], 2, [], 0⟩ ∧
+    validate_sptensorI ⟨[2, 0], 2, [], 0⟩ = .ok () ∧ ¬ Pre_subsI ⟨[2, 0], 2, [], 0⟩ ∧
+    validate_fromAggregatorI ⟨[2, -3], 2, [], 0⟩ = .error .reject :=
+  ⟨(validate_sptensor_ok_iff _).2 (by decide), by decide, (validate_sptensor_ok_iff _).2 (by decide), by decide,
+    C19_rejects_from_aggregator_extents _ (by simp) (by decide)⟩
+
+example : Pre_subsI ⟨[2, 3], 2, [[1, 2], [0, 0]], 2⟩ ∧ ¬ Pre_subsI ⟨[2, 3], 2, [[2, 0], [0, 0]], 2⟩ ∧
+    ¬ Pre_subsI ⟨[2, 0], 2, [], 0⟩ ∧ ¬ Pre_subsI ⟨[2, -3], 2, [], 0⟩ ∧ Pre_subsI ⟨[2, 3], 2, [], 0⟩ := by decide
+
+/-- `tensor.ttsv(vector, skip_dim, version)` with the multiplicand given by shape and kind: an
+array with more than one non-trivial dimension is rejected outright; otherwise the request is
+rejected unless it is well formed for the length the multiplicand counts as — a nested list of
+two dimensions, which is not squeezed, counts as a length no mode has. -/
+theorem C19_rejects_ttsv_multiplicand (a : TtsvArgs) (vshape : List Nat) (isList : Bool)
+    (h : ¬ Pre_ttsvM a vshape isList) : validate_ttsvM a vshape isList = .error .reject :=
+  rejects_of_guard (validate_ttsvM_ok_iff a vshape isList) (fun hp => h hp.2)
+
+/-- beyond the precondition the code refuses an ndarray that is not a vector even when no mode
+is multiplied (`parse_one_d` comes first): that is the extra hypothesis. -/
+theorem C19_accepts_ttsv_multiplicand (a : TtsvArgs) (vshape : List Nat) (isList : Bool)
+    (hv : (vectorShape vshape isList).isSome = true) (h : Pre_ttsvM a vshape isList) :
+    validate_ttsvM a vshape isList = .ok () := (validate_ttsvM_ok_iff a vshape isList).2 ⟨hv, h⟩
+
+/-- what "a length no mode has" buys in the direct computation: a multiplicand that is not 1-d
+after parsing (a nested list) is rejected as soon as one mode is multiplied. -/
+theorem C19_ttsv_nonvector_rejected (a : TtsvArgs) (vshape : List Nat)
+    (hv : vshape.length ≠ 1) (hver : a.version = .default ∨ a.version = .v2)
+    (hused : (a.skip.getD (-1)) + 1 < (a.shape.length : Int)) :
+    validate_ttsvM a vshape true = .error .reject := by
+  apply C19_rejects_ttsv_multiplicand
+  have hw : a.withMultiplicand vshape true = { a with veclen := a.shape.sum + 1 } := by
+    unfold TtsvArgs.withMultiplicand vectorShape
+    match vshape, hv with
+    | [], _ => rfl
+    | [_], hv => exact absurd rfl hv
+    | _ :: _ :: _, _ => rfl
+  unfold Pre_ttsvM
+  rw [hw]
+  rintro ⟨_, h2⟩
+  have hd : TtsvArgs.directOK { a with veclen := a.shape.sum + 1 } := by
+    rcases hver with hver | hver
+    · have h3 : ({ a with veclen := a.shape.sum + 1 } : TtsvArgs).version = .default := hver
+      rw [h3] at h2; exact h2
+    · have h3 : ({ a with veclen := a.shape.sum + 1 } : TtsvArgs).version = .v2 := hver
+      rw [h3] at h2; exact h2
+  have := hd.2.2 hused
+  have hle := getD_zero_le_sum a.shape
+  simp only at this
+  omega
+
+example : Pre_ttsvM ⟨[2, 2, 2], 0, some 0, .default⟩ [2, 1] false ∧ ¬ Pre_ttsvM ⟨[2, 2, 2], 0, some 0, .default⟩ [2, 3] false ∧
+    ¬ Pre_ttsvM ⟨[2, 2], 0, some 0, .default⟩ [2, 3] true ∧ ¬ Pre_ttsvM ⟨[2, 2], 0, some 0, .v1⟩ [2, 1] true ∧
+    Pre_ttsvM ⟨[2, 2], 0, some 0, .v2⟩ [2] true ∧ Pre_ttsvM ⟨[2, 2], 0, some 1, .v2⟩ [2, 3] true := by decide
+
+/-- `ttensor(core, factors)` with exactly one of the two components is rejected (neither is the
+empty Tucker tensor). -/
+theorem C19_rejects_ttensor_components (core factors : Bool) (h : ¬ Pre_ttensorGiven core factors) :
+    validate_ttensorGiven core factors = .error .reject :=
+  rejects_of_guard (validate_ttensorGiven_ok_iff core factors) h
+
+theorem C19_accepts_ttensor_components (core factors : Bool) (h : Pre_ttensorGiven core factors) :
+    validate_ttensorGiven core factors = .ok () := (validate_ttensorGiven_ok_iff core factors).2 h
+
+/-- `ktensor(factors, weights)`: factor matrices or weights that are not arrays of floats are
+rejected, like the size violations of `C19_rejects_ktensor`. -/
+theorem C19_rejects_ktensor_typed (fs : List MatS) (nw : Option Nat) (ff wf : Bool)
+    (h : ¬ Pre_ktensorTyped fs nw ff wf) : validate_ktensorTyped fs nw ff wf = .error .reject :=
+  rejects_of_guard (validate_ktensorTyped_ok_iff fs nw ff wf) h
+
+theorem C19_accepts_ktensor_typed (fs : List MatS) (nw : Option Nat) (ff wf : Bool)
+    (h : Pre_ktensorTyped fs nw ff wf) : validate_ktensorTyped fs nw ff wf = .ok () :=
+  (validate_ktensorTyped_ok_iff fs nw ff wf).2 h
+
+example : Pre_ktensorTyped [(2, 2), (3, 2)] (some 2) true true ∧ ¬ Pre_ktensorTyped [(2, 2), (3, 2)] none false true ∧
+    ¬ Pre_ktensorTyped [(2, 2), (3, 2)] (some 2) true false ∧ Pre_ttensorGiven false false ∧ ¬ Pre_ttensorGiven true false := by
+  decide
+
+/-- `sptensor.subdims(region)`: a region with another number of entries than the tensor has modes. -/
+theorem C19_rejects_subdims (N len : Nat) (h : ¬ Pre_subdims N len) : validate_subdims N len = .error .reject :=
+  rejects_of_guard (validate_subdims_ok_iff N len) h
+
+theorem C19_accepts_subdims (N len : Nat) (h : Pre_subdims N len) : validate_subdims N len = .ok () :=
+  (validate_subdims_ok_iff N len).2 h
+
+/-- `S[region] = sptensor`: an index list of the region that is longer or shorter than the extent
+of the right-hand side in the mode it is paired with (or that is paired with no mode at all) is
+rejected by the size-match loop.  Slices are not compared (they grow the receiver or fail
+depending on the stored values: property C04). -/
+theorem C19_rejects_sp_assign (key : List KeyEntry) (rhs : List Nat) (h : ¬ Pre_spAssign key rhs) :
+    validate_spAssign key rhs = .error .reject :=
+  rejects_of_guard (validate_spAssign_ok_iff key rhs) h
+
+/-- the size-match loop rejects nothing else (what follows it may: C04). -/
+theorem C19_accepts_sp_assign (key : List KeyEntry) (rhs : List Nat) (h : Pre_spAssign key rhs) :
+    validate_spAssign key rhs = .ok () := (validate_spAssign_ok_iff key rhs).2 h
+
+/-- the loop runs before the first write: a rejected assignment leaves the receiver as it was. -/
+theorem C19_receiver_unchanged_sp_assign {σ : Type} (key : List KeyEntry) (rhs : List Nat) (step : σ → σ) (s : σ)
+    (h : ¬ Pre_spAssign key rhs) : inPlace (validate_spAssign key rhs) step s = (s, .error .reject) :=
+  inPlace_reject _ step s (C19_rejects_sp_assign key rhs h)
+
+example : Pre_spAssign [.list 3, .slice true] [3, 2] ∧ ¬ Pre_spAssign [.list 3, .slice true] [2, 2] ∧
+    Pre_spAssign [.int, .list 2] [2] ∧ ¬ Pre_spAssign [.int, .list 2] [3] ∧ ¬ Pre_spAssign [.slice true, .list 2] [4] ∧
+    Pre_subdims 3 3 ∧ ¬ Pre_subdims 3 4 := by decide
+
 /-! ### the pinned commit answered some ill-formed requests (explicit copies of the old guards) -/
 
 /-- pinned `tt_dimscheck` let repeated and too large modes through. -/
